@@ -859,6 +859,9 @@ def main_check(chk, argv):
                 "correspondence families below, not by translation",
                 "Rust harness /verif/harness (calls the real functions/contracts, catch_unwind), python "
                 "generators/serialisers in /verif/gen, checker functions in coq/theories/Exec/Cases.v",
+                "the harness is built in two profiles of the SAME source: deploy (debug assertions off, overflow checks on, as "
+                "/repo's release profile) runs the world histories and every function-level case, debug (what cargo test "
+                "uses) runs every function-level case again; hook payloads are written as wire-level JSON",
                 "no extraction is used"] + list(chk.modelled),
             "evaluations": evaluations,
             "distinct_nontrivial": nontrivial,
